@@ -778,6 +778,30 @@ theorem block_roundtrip_sem (crc : Crc) (syms : List Bytes) (series : List Serie
   · intro n hn; rw [hreq]; exact labelValues_written crc syms series h hnd hne n hn
   · rw [hreq]; exact labelNames_written crc syms series h hsorted hne
 
+/-- The hypotheses of `block_roundtrip_sem` hold for a concrete block (two series sharing a label
+    name, extreme chunk metas). -/
+example :
+    BlockWF [[97], [98], [99]]
+      [⟨[(0, 1)], [⟨-9223372036854775808, 9223372036854775807, 18446744073709551615⟩]⟩, ⟨[(0, 2)], []⟩] ∧
+    [[97], [98], [99]].Pairwise (fun a b => bytesLt a b = true) ∧
+    (∀ n ∈ namesOf [⟨[(0, 1)], [⟨-9223372036854775808, 9223372036854775807, 18446744073709551615⟩]⟩, ⟨[(0, 2)], []⟩],
+      strOf [[97], [98], [99]] n ≠ []) := by
+  refine ⟨⟨?_, by decide, by decide, ?_⟩, by decide, ?_⟩
+  · intro s hs; simp at hs; rcases hs with rfl | rfl | rfl <;> decide
+  · intro s hs
+    simp at hs
+    rcases hs with rfl | rfl
+    · exact ⟨by intro p hp; simp at hp; subst hp; exact ⟨by decide, by decide, rfl, rfl⟩, by decide,
+        by intro c hc; simp at hc; subst hc; unfold ChunkWF I64 U64; decide, by decide, by decide⟩
+    · exact ⟨by intro p hp; simp at hp; subst hp; exact ⟨by decide, by decide, rfl, rfl⟩, by decide,
+        by intro c hc; simp at hc, by decide, by decide⟩
+  · intro n hn
+    have : namesOf [⟨[(0, 1)], [⟨-9223372036854775808, 9223372036854775807, 18446744073709551615⟩]⟩, ⟨[(0, 2)], []⟩] = [0] := by decide
+    rw [this] at hn
+    simp at hn
+    subst hn
+    decide
+
 /-! ## Damage of sections and of the whole file -/
 
 /-- Any length-prefixed section (`BE32 len | content | crc32`: symbol table, postings list, postings
